@@ -70,6 +70,13 @@ class C01(Scenario):
             if n in a.index:
                 ctx.eq(f"get_args[{n}]", a[n], env[n])
 
+        # readouts are functions of the resolved values
+        if decl.readouts:
+            with ctx.impl("get_args(include_readouts=True)"):
+                ar = m.get_args(dict(state), T, include_readouts=True)
+            for ro, r_ in decl.readouts.items():
+                ctx.eq(f"readout[{ro}]", ar[ro], r_.fn(*(env[a_] for a_ in r_.args)))
+
         # stoichiometries x fluxes = rhs
         with ctx.impl("get_stoichiometries"):
             for v in names:
